@@ -451,3 +451,15 @@ impl Iterator for FragBitVecIterator {
 //     }
 //   }
 // }
+
+// Verification hook: read-only view of the requested fragments.
+#[cfg(rustdds_verif)]
+impl RtpsReaderProxy {
+  pub(crate) fn verif_frags_requested(&self) -> Vec<(i64, Vec<bool>)> {
+    self
+      .frags_requested
+      .iter()
+      .map(|(sn, bv)| (i64::from(*sn), bv.iter().collect()))
+      .collect()
+  }
+}
